@@ -44,12 +44,12 @@ structure TestEl where
   /-- `fill` raises `LenaStopFill` for every value `≥ stop` -/
   stop : Option Int := none
   stores : Bool := false
-  /-- the number of results depends on the state: `k` when an odd number of values is held, none otherwise -/
+  /-- the number of results depends on the state: `k` when the values held sum to an odd number, none otherwise -/
   kpar : Bool := false
 
 def results (k : Nat) (s : List Int) : List (List Int) := (List.range k).map (fun (j : Nat) => (j : Int) :: s)
 
-def kOf (t : TestEl) (s : List Int) : Nat := if t.kpar then (if s.length % 2 == 1 then t.k else 0) else t.k
+def kOf (t : TestEl) (s : List Int) : Nat := if t.kpar then (if s.sum % 2 == 1 then t.k else 0) else t.k
 
 def baseEl (t : TestEl) : El (List Int) Int (List Int) where
   fill s x := s ++ [x]
@@ -300,8 +300,12 @@ def handle (j : Json) : Json :=
         let jr : Option Nat := nat? (getD j "j")
         let e := readEl t jr
         let r := runRunP e c.bufsize c.reset c.bufferInput c.yor [] xs
+        -- "fixed": `_run_run` as notes/C16_defect_1.patch makes it (the rest of each block is skipped after el.run):
+        -- the loops of Model/C16.lean on the element that forgets how much it read
+        let cr : Cfg := { c with runKind := .runRun }
         Json.mkObj [("r", ofOuts r.1), ("spin", Json.bool r.2),
-          ("spec", ofOuts (specBlocksP e c.bufsize c.reset c.yor [] (chunks c.bufsize xs)))]
+          ("spec", ofOuts (specBlocksP e c.bufsize c.reset c.yor [] (chunks c.bufsize xs))),
+          ("fixed", ofOuts (runFR e.toEl cr [] xs).1)]
       | _, _ => err "bad runp args"
     | _ => err "unknown op"
 
